@@ -36,7 +36,11 @@ def gen_compsim(rng: random.Random, kinds=None):
         else:
             ops.append(["reseed", rng.randrange(2 ** 31)])
     ops.append(["sample"])
+    if rng.random() < 0.06:
+        # the same sampler object is later asked to work on another space of the same dimension
+        ops.insert(rng.randrange(1, len(ops)), ["space", calsim.gen_space(rng, dims, small=rng.random() < 0.3)])
     return {"engine": "compsim", "space": calsim.gen_space(rng, dims, small=rng.random() < 0.3),
+            "hist_dtype": rng.choice(["float64"] * 8 + ["float32", "int"]),
             "sampler": calsim.gen_sampler_spec(rng, kind, bs), "ctor_seed": rng.randrange(2 ** 31),
             "hist_seed": rng.randrange(2 ** 31), "hist_n": rng.randint(bs, bs + 12), "loss_mode": rng.choice(["ties", "negpos", "plain"]),
             "ops": ops}
@@ -62,8 +66,23 @@ def run_compsim(scn, res: Result, check_fn=None):
             edge = space.parameters_bounds[1][j] if side > 0 else space.parameters_bounds[0][j]
             pts[r, j] = edge + side * step * float(org.choice([0.4, 1.0, 2.0, 3.5, 40.0]))
             losses[r] = np.min(losses[np.isfinite(losses)]) - float(org.random()) - 0.1 if np.isfinite(losses).any() else -1.0
+    hd = scn.get("hist_dtype", "float64")
+    if hd == "float32":
+        pts = pts.astype(np.float32)            # a history kept in single precision (still a legal array of on-grid points
+        res.stats["history-dtype:float32"] += 1  # to the precision of that type)
+    elif hd == "int" and all(float(v).is_integer() for g in space.param_grid for v in (g[0], g[-1])) and \
+            all(float(p).is_integer() for p in space.parameters_precision):
+        pts = pts.astype(np.int64)
+        res.stats["history-dtype:int"] += 1
+    space_spec = scn["space"]
     n_samples = 0
     for oi, op in enumerate(scn["ops"]):
+        if op[0] == "space":
+            space_spec = op[1]
+            space = make_space(space_spec)
+            pts = grid_points(space, nrng, max(len(pts), 1)).astype(pts.dtype)
+            res.stats["space-switch@sampler"] += 1
+            continue
         if op[0] == "sample":
             p0, l0 = pts.copy(), losses.copy()
             try:
@@ -74,7 +93,7 @@ def run_compsim(scn, res: Result, check_fn=None):
                 if pts.tobytes() != p0.tobytes() or losses.tobytes() != l0.tobytes():
                     res.add("history-modified", cls, f"{cls}.sample() raised {type(e).__name__} after modifying the arrays it was lent")
                 break
-            out = np.asarray(out)
+            out = np.asarray(out, dtype=np.float64)      # judged as double precision values, whatever came back
             n_samples += 1
             if pts.tobytes() != p0.tobytes() or losses.tobytes() != l0.tobytes():
                 which = "points" if pts.tobytes() != p0.tobytes() else "losses"
@@ -83,11 +102,11 @@ def run_compsim(scn, res: Result, check_fn=None):
             if out.shape != (sampler.batch_size, space.dims):
                 res.add("shape", cls, f"{cls} returned shape {out.shape}, expected {(sampler.batch_size, space.dims)} (op {oi}, call #{n_samples})")
                 break
-            oob = out_of_bounds(scn["space"], out)
+            oob = out_of_bounds(space_spec, out)
             if oob is not None:
                 i, j, v = oob
                 res.add("out-of-bounds", cls, f"{cls} call #{n_samples} (op {oi}) proposed {v!r} for parameter {j}, outside the declared "
-                                              f"bounds [{scn['space']['bounds'][0][j]!r}, {scn['space']['bounds'][1][j]!r}] (precision {scn['space']['precision'][j]!r})")
+                                              f"bounds [{space_spec['bounds'][0][j]!r}, {space_spec['bounds'][1][j]!r}] (precision {space_spec['precision'][j]!r})")
                 break
             bad = on_grid(space, out)
             if bad is not None:
